@@ -65,6 +65,7 @@ def multi_module_runs(tier: str):
                 d = root / f"{name}_{vi}"
                 d.mkdir()
                 for fn, src in files.items():
+                    (d / fn).parent.mkdir(parents=True, exist_ok=True)
                     (d / fn).write_text(src)
                 for s in seeds:
                     jobs.append((name, label, files, d, s))
